@@ -148,7 +148,15 @@ func runC08(r *Rand, tier string, o *Out) {
 	exhaustive := 0
 	check := func(kind, class, op string, pre string, enc []byte, post string) {
 		cuts := cutPositions(r, len(enc))
-		o.Do("X", op+" "+pre+hx(enc)+post, true) // the complete encoding: model/implementation correspondence
+		// the complete encoding (model/implementation correspondence) comes first — or last: a decoder that remembers
+		// something of a type from its first, failed, attempt shows it on the later ones
+		cutsFirst := r.Bool()
+		if !cutsFirst {
+			o.Do("X", op+" "+pre+hx(enc)+post, true)
+		} else {
+			defer func() { o.Do("X", op+" "+pre+hx(enc)+post, true) }()
+			o.Count("cuts-before-the-complete-encoding")
+		}
 		if len(cuts) == len(enc) {
 			exhaustive++
 		}
